@@ -1037,6 +1037,48 @@ func genQuarantineDiff(a, b string) string {
 	return "quarantine"
 }
 
+// genQuarantineStateDiff compares the quarantine module STATE of the original and of the re-initialised
+// chain: "" when the opt-ins and auto-responses are identical and every receiver has the same total
+// quarantined; "quarantine-state" / "quarantine-state-funds" otherwise. (Records are compared by total
+// per receiver because of the representation change described at genQuarantineDiff.)
+func genQuarantineStateDiff(a, b *genChain) string {
+	digest := func(c *genChain) (string, string) {
+		ctx := c.a.BaseApp.NewContextLegacy(true, cmtproto.Header{ChainID: genChainID, Height: c.a.LastBlockHeight()})
+		h := sha256.New()
+		st := ctx.KVStore(c.a.GetKey("quarantine"))
+		for _, pre := range []byte{0x00, 0x01} {
+			it := storetypes.KVStorePrefixIterator(st, []byte{pre})
+			for ; it.Valid(); it.Next() {
+				fmt.Fprintf(h, "%x=%x;", it.Key(), it.Value())
+			}
+			it.Close()
+		}
+		tot := map[string]sdk.Coins{}
+		c.a.QuarantineKeeper.IterateQuarantineRecords(ctx, nil, func(to, _ sdk.AccAddress, rec *quarantine.QuarantineRecord) bool {
+			tot[to.String()] = tot[to.String()].Add(rec.Coins...)
+			return false
+		})
+		var ks []string
+		for k, v := range tot {
+			ks = append(ks, k+"="+v.String())
+		}
+		sort.Strings(ks)
+		return fmt.Sprintf("%x", h.Sum(nil)), strings.Join(ks, ";")
+	}
+	a1, a2 := digest(a)
+	b1, b2 := digest(b)
+	if a2 != b2 {
+		if testing.Verbose() {
+			fmt.Println("QUARANTINE STATE totals", a2, "|", b2)
+		}
+		return "quarantine-state-funds"
+	}
+	if a1 != b1 {
+		return "quarantine-state"
+	}
+	return ""
+}
+
 func genPrintStoreDiff(a, b *genChain, m string) {
 	dump := func(c *genChain) map[string]string {
 		res := map[string]string{}
@@ -1266,6 +1308,11 @@ func genCase(t *testing.T, seed uint64, nBlocks int, out *Out) (string, string) 
 				for _, m := range genCompareModules {
 					if m == "quarantine" {
 						if cls := genQuarantineDiff(exp1[m], exp2[m]); cls != "" {
+							bad = append(bad, cls)
+						}
+						// the exported genesis can only show what the export wrote: compare the STATE of the
+						// two chains too (opt-ins and auto-responses byte for byte, quarantined totals per receiver)
+						if cls := genQuarantineStateDiff(c1, c4); cls != "" {
 							bad = append(bad, cls)
 						}
 						continue
